@@ -18,7 +18,7 @@ SPEC = {
                    "finding. Tie: the real DbImpl runs on a public fault-injecting StorageData wrapper (k-th write/resize/flush fails once or from "
                    "then on); the oracle checks error reporting, in-process state vs a fault-free twin history, log cleared after later steps, and "
                    "the state after close + reopen; the driver predicts traces, flush placement and log state."),
-    "level_note": ("Category other: the property as stated is violated by the code (known findings C32/*); the proved part is the storage-level "
+    "level_note": ("Stream limitation (DESIGN §11, seeded C32/s1 missed): transaction closures in the stream always propagate a failed query's error; closures that swallow it are covered by the theorem C32_depth_restored_tolerant on the model only. Category other: the property as stated is violated by the code (known findings C32/*); the proved part is the storage-level "
                    "bracket discipline. In-memory caches (record table, vector lengths, graph/map state) that diverge from the file after a failed "
                    "write are outside the model; their consequences (read errors, panics, unreadable file) are reported by the oracle."),
     "technique": "Lean 4 invariant proof over bracketed event traces with failing calls + fault injection through a StorageData wrapper",
